@@ -53,8 +53,14 @@ def explore(out, tier, seed, facts, replay=None):
 
 
 def _explore(out, tier, seed, facts, replay):
+    import os
+    import time
     import verif.axis
+    import verif.field
     import verif.util
+    # the calendar slices are defined in UTC whatever the machine's local zone is: run the whole exploration in a zone far from UTC
+    os.environ["TZ"] = ["PST8", "AEST-10", "NPT-5:45"][seed % 3]
+    time.tzset()
     datagen.patch_error()
     rng = random.Random(seed + 1111)
     times = sample_times(rng, tier)
@@ -190,6 +196,25 @@ def _explore(out, tier, seed, facts, replay):
                 nf += 1
                 if v != [getattr(l, attr) for l in d.locations]:
                     out.violation("location-axis:%s" % nm, "axis %s values %r are not the locations' %s" % (nm, v, attr), {"dataset": ds})
+            # ... and each location is its own slice even when two stations share a latitude, longitude or elevation exactly
+            for nm in ("location", "lat", "lon", "elev"):
+                axl = verif.axis.get(nm)
+                cnt, allv = 0, []
+                try:
+                    for ai in range(len(d.locations)):
+                        o_, f_ = d.get_scores([verif.field.Obs(), verif.field.Fcst()], 0, axl, ai)
+                        nf += 1
+                        if len(o_) == 1 and math.isnan(o_[0]):
+                            continue
+                        cnt += len(o_)
+                        allv += list(zip([float(x) for x in o_], [float(x) for x in f_]))
+                except SystemExit:
+                    continue
+                shared = len(set(getattr(l, "id" if nm == "location" else nm) for l in d.locations)) < len(d.locations)
+                distinct.add((nm, len(d.locations), pn, shared))
+                if cnt != pn or sorted(allv) != pvals:
+                    out.violation("partition:%s" % nm, "-x %s: the %d location slices hold %d cases, pooled %d (every case must be in exactly one slice%s)"
+                                  % (nm, len(d.locations), cnt, pn, "; two stations share this value" if shared else ""), {"dataset": ds, "axis": nm})
         if len(samples) < 2:
             samples.append({"times": ds["inputs"][0]["times"][:4], "axis_sizes": [int(x) for x in sizes]})
     stats.update({
